@@ -1319,6 +1319,9 @@ Lemma model_follows_source :
   (forall b, parent_search_flag b = negb b) /\ children_send_independent = true.
 Proof. repeat split; first [reflexivity | intros []; reflexivity]. Qed.
 
+Lemma helpers_as_assumed : search_for_parent_default = true /\ 0 < BLOCKING_FLAG_SEARCHES /\ 0 < DEFAULT_LISTENER_PRIORITY.
+Proof. repeat split; reflexivity. Qed.
+
 (* ------------------------------------------------------------------ children told: full statement when a new session re-advertises *)
 (* frame of session / held / pend: handlers push only while the server write side is held *)
 Definition sfr (s s' : state) : Prop :=
